@@ -3,6 +3,7 @@ import InfluxQL.Lemmas.Digits
 import InfluxQL.Lemmas.ParserTok
 import InfluxQL.Lemmas.IntLit
 import InfluxQL.Props.C03
+import InfluxQL.Lemmas.Render
 /-
 C01 — the parser accepts the grammar and builds the denoted AST.
 
@@ -185,5 +186,358 @@ theorem gen_precedence_levels :
     ([Gen.Token.ADD, .SUB, .BITWISE_OR, .BITWISE_XOR].all (·.precedence == 4)) ∧
     ([Gen.Token.EQ, .NEQ, .LT, .LTE, .GT, .GTE, .EQREGEX, .NEQREGEX].all (·.precedence == 3)) ∧
     Gen.Token.AND.precedence = 2 ∧ Gen.Token.OR.precedence = 1 := C03.gen_precedence_levels
+
+/-! ## Free spelling: keyword case, gaps, quoting (`Lemmas/Render.lean`)
+
+A statement text is `render l` for a list `l` of `(gap, piece)` pairs: every piece (keyword in some
+case, name bare or quoted, string, integer with leading zeros, duration literal, `=`, `,`) preceded
+by a gap (any sequence of whitespace runes and comments, possibly empty). `Legal l k`: every gap
+and piece is well formed and no token runs into the next (`Piece.EndOK`; automatic after a
+non-empty gap). Texts are delivered runes (CR / CRLF folded to LF by the reader); the end-to-end
+theorems take a raw text whose delivered form (`foldCR`) is the rendering. -/
+
+open Render
+
+/-- Obligation on the regenerated keyword table: the key of every entry is the ASCII lower-casing of
+`Token.String()` of its token, which `Lookup` maps back to the token (a word of identifier runes). -/
+theorem gen_keywords_lower : ∀ p ∈ keywords, p.2.str.map lowerAscii = p.1 ∧ p.2.isKw = true :=
+  Render.gen_keywords_lower
+
+/-- **(a) Keyword case.** For every entry `(kw, tok)` of the regenerated keyword table and every word
+`w` whose ASCII lower-casing is `kw` — any mix of upper and lower case, letter by letter — `w`
+followed by a rune that ends a word (or by the end of the input) scans as the single token `tok`, and
+the scanner stops right behind `w`. -/
+theorem keyword_anyCase (kw : Str) (tok : Token) (hmem : (kw, tok) ∈ keywords) (w k : Str)
+    (hw : w.map lowerAscii = kw) (hk : WordEnd k) : ScansAs w k tok [] :=
+  scansAs_kwEntry kw tok hmem w k hw hk
+
+/-- **(b) Gap, then token.** In front of `gap ++ piece ++ k`, where the gap is any sequence of
+whitespace runes and comments (`/* … */` closed by its first `*/`, `-- …⏎`; no bound on their number
+or length; possibly empty) and `piece` scans as one token, `ScanIgnoreWhitespace` delivers exactly
+that token and leaves the parser before `k` with nothing pushed back. Also after a one-token
+look-ahead (`Around`). -/
+theorem gap_then_token (s : PState) (g : Render.Gap) (piece k : Str) (T : Token) (L : Str) (hok : gapOK g = true)
+    (hs : s.Around (gapText g ++ (piece ++ k))) (hsc : ScansAs piece k T L) :
+    ∃ lx s', scanIW.run s = .ok (lx, s') ∧ lx.tok = T ∧ lx.lit = L ∧ s'.Before k :=
+  delivers s g piece k T L hok hs hsc
+
+/-- **(c) and the other pieces.** Every legal piece — a keyword in any case, a name bare (if it does
+not need quotes) or quoted (any expressible name), a string literal, digits with leading zeros, a
+duration literal, `=`, `,` — followed by a text that does not continue it is exactly one token with
+the expected kind and value. -/
+theorem piece_one_token (p : Piece) (k : Str) (hok : p.ok = true) (hend : p.EndOK k) :
+    ScansAs p.text k p.tok p.lit := scansAs_piece p k hok hend
+
+/-- A name that does not need quotes may be written either way: both spellings are legal and
+denote the same name (`piece_one_token` gives IDENT `name` for both). -/
+theorem name_bare_or_quoted (name : Str) (hq : identNeedsQuotes name = false) (hne : name ≠ []) :
+    (Piece.name .bare name).ok = true ∧ (Piece.name .quoted name).ok = true ∧
+    (Piece.name .bare name).lit = (Piece.name .quoted name).lit := by
+  refine ⟨by simp [Piece.ok, NameSpelling.ok, hq, hne], ?_, rfl⟩
+  simp only [Piece.ok, NameSpelling.ok, decide_eq_true_eq]
+  exact expressible_of_bare name hq hne
+
+/-! ### the dispatch keywords in free spelling -/
+
+/-- Follow tokens through the regenerated dispatch tree from node `idx`: the handler the last one
+selects. -/
+def dispatchPath : Nat → List Token → Option Handler
+  | _, [] => none
+  | idx, t :: rest =>
+    match lookupTok t (dispatch.getD idx default).subs with
+    | some j => dispatchPath j rest
+    | none =>
+      match rest with
+      | [] => lookupTok t (dispatch.getD idx default).handlers
+      | _ :: _ => none
+
+/-- **The dispatch on freely spelled keywords.** If the tokens of the pieces `l` lead from node
+`idx` to handler `h`, then `dispatchLoop` on a legal spelling `l ++ body` is `h` started right
+behind the last piece of `l` (before `body`'s first gap). -/
+theorem dispatch_render (fuel : Nat) (h : Handler) (l : List (Render.Gap × Piece)) :
+    ∀ (it idx : Nat) (s : PState) (body : List (Render.Gap × Piece)) (k : Str),
+      dispatchPath idx (l.map (·.2.tok)) = some h → l.length ≤ it → Legal (l ++ body) k →
+      s.Before (render (l ++ body) ++ k) →
+      ∃ s', (dispatchLoop fuel it idx).run s = (runHandler fuel h).run s' ∧ s'.Before (render body ++ k) := by
+  induction l with
+  | nil => intro it idx s body k hp; cases hp
+  | cons gp rest ih =>
+    obtain ⟨g, p⟩ := gp
+    intro it idx s body k hp hlen hL hs
+    cases it with
+    | zero => simp at hlen
+    | succ it =>
+    rw [List.cons_append] at hL hs
+    obtain ⟨lx, s1, h1, t1, _, b1⟩ := step s g p (rest ++ body) k hL hs.around
+    simp only [List.map_cons] at hp
+    cases rest with
+    | nil =>
+      refine ⟨s1, ?_, b1⟩
+      simp only [List.map_nil, dispatchPath] at hp
+      conv => lhs; unfold dispatchLoop
+      rw [P.run_bind _ _ s lx s1 h1]
+      simp only [t1]
+      cases hsub : lookupTok p.tok (dispatch.getD idx default).subs with
+      | some j => rw [hsub] at hp; cases hp
+      | none =>
+        rw [hsub] at hp
+        simp only [hp]
+    | cons gp2 rest2 =>
+      simp only [List.map_cons] at hp
+      unfold dispatchPath at hp
+      cases hsub : lookupTok p.tok (dispatch.getD idx default).subs with
+      | none => rw [hsub] at hp; cases hp
+      | some j =>
+        rw [hsub] at hp
+        obtain ⟨s', h2, b2⟩ := ih it j s1 body k hp (by simpa using hlen) hL.tail b1
+        refine ⟨s', ?_, b2⟩
+        conv => lhs; unfold dispatchLoop
+        rw [P.run_bind _ _ s lx s1 h1]
+        simp only [t1, hsub]
+        exact h2
+
+/-- The same for `ParseStatement`. -/
+theorem parseStatement_render (fuel : Nat) (h : Handler) (l body : List (Render.Gap × Piece)) (s : PState) (k : Str)
+    (hp : dispatchPath 0 (l.map (·.2.tok)) = some h) (hlen : l.length ≤ dispatch.length + 1)
+    (hL : Legal (l ++ body) k) (hs : s.Before (render (l ++ body) ++ k)) :
+    ∃ s', (parseStatement fuel).run s = (runHandler fuel h).run s' ∧ s'.Before (render body ++ k) :=
+  dispatch_render fuel h l _ 0 s body k hp hlen hL hs
+
+/-- Keywords `toks` written as the words `ks`, each after its gap. -/
+def kwPieces : List Token → List (Render.Gap × Str) → List (Render.Gap × Piece)
+  | t :: toks, (g, w) :: ks => (g, .kw t w) :: kwPieces toks ks
+  | _, _ => []
+
+theorem kwPieces_toks : ∀ (toks : List Token) (ks : List (Render.Gap × Str)), ks.length = toks.length →
+    (kwPieces toks ks).map (·.2.tok) = toks ∧ (kwPieces toks ks).length = toks.length
+  | [], [], _ => ⟨rfl, rfl⟩
+  | [], _ :: _, h => by simp at h
+  | _ :: _, [], h => by simp at h
+  | t :: toks, (g, w) :: ks, h => by
+    obtain ⟨h1, h2⟩ := kwPieces_toks toks ks (by simpa using h)
+    refine ⟨?_, ?_⟩
+    · show t :: (kwPieces toks ks).map (·.2.tok) = t :: toks
+      rw [h1]
+    · show (kwPieces toks ks).length + 1 = toks.length + 1
+      rw [h2]
+
+/-- The keyword paths of the statement families treated below and the handler they select. -/
+def familyPaths : List (List Token × Handler) :=
+  [([.SHOW, .CONTINUOUS, .QUERIES], .parseShowContinuousQueriesStatement),
+   ([.SHOW, .DATABASES], .parseShowDatabasesStatement),
+   ([.SHOW, .QUERIES], .parseShowQueriesStatement),
+   ([.SHOW, .SHARD, .GROUPS], .parseShowShardGroupsStatement),
+   ([.SHOW, .SHARDS], .parseShowShardsStatement),
+   ([.SHOW, .SUBSCRIPTIONS], .parseShowSubscriptionsStatement),
+   ([.SHOW, .USERS], .parseShowUsersStatement),
+   ([.DROP, .DATABASE], .parseDropDatabaseStatement),
+   ([.DROP, .MEASUREMENT], .parseDropMeasurementStatement),
+   ([.DROP, .USER], .parseDropUserStatement),
+   ([.SHOW, .GRANTS, .FOR], .parseGrantsForUserStatement),
+   ([.DROP, .RETENTION, .POLICY], .parseDropRetentionPolicyStatement),
+   ([.DROP, .CONTINUOUS, .QUERY], .parseDropContinuousQueryStatement),
+   ([.SHOW, .RETENTION, .POLICIES], .parseShowRetentionPoliciesStatement),
+   ([.KILL, .QUERY], .parseKillQueryStatement),
+   ([.DROP, .SHARD], .parseDropShardStatement),
+   ([.CREATE, .USER], .parseCreateUserStatement),
+   ([.SET, .PASSWORD, .FOR], .parseSetPasswordUserStatement),
+   ([.GRANT], .parseGrantStatement),
+   ([.REVOKE], .parseRevokeStatement),
+   ([.CREATE, .RETENTION, .POLICY], .parseCreateRetentionPolicyStatement)]
+
+/-- Obligation on the regenerated tables: every path above consists of keywords of the scanner's
+table and selects its handler from the root of the dispatch tree, within the rounds of the loop. -/
+theorem gen_familyPaths : ∀ p ∈ familyPaths,
+    (∀ t ∈ p.1, t.isKw = true) ∧ dispatchPath 0 p.1 = some p.2 ∧ p.1.length ≤ dispatch.length + 1 := by
+  decide +kernel
+
+/-- **From the first character.** `ParseStatement` on a legal free spelling of the keywords `toks`
+(a path of `familyPaths`) followed by a legal spelling `body` is the path's handler started on
+`body`. -/
+theorem parseStatement_family (fuel : Nat) (toks : List Token) (h : Handler) (hmem : (toks, h) ∈ familyPaths)
+    (ks : List (Render.Gap × Str)) (hks : ks.length = toks.length) (body : List (Render.Gap × Piece)) (s : PState) (k : Str)
+    (hL : Legal (kwPieces toks ks ++ body) k) (hs : s.Before (render (kwPieces toks ks ++ body) ++ k)) :
+    ∃ s', (parseStatement fuel).run s = (runHandler fuel h).run s' ∧ s'.Before (render body ++ k) ∧ Legal body k := by
+  obtain ⟨_, hpath, hlen⟩ := gen_familyPaths (toks, h) hmem
+  obtain ⟨h1, h2⟩ := kwPieces_toks toks ks hks
+  obtain ⟨s', hr, hb⟩ := parseStatement_render fuel h (kwPieces toks ks) body s k (by rw [h1]; exact hpath)
+    (by rw [h2]; exact hlen) hL hs
+  exact ⟨s', hr, hb, ((legal_append _ _ _).mp hL).2⟩
+
+/-- `ParseStatement(text)`: the parser is started before the delivered text followed by NUL. -/
+theorem parseStatementText_of_run (text : Str) (params : List (Str × BoundValue)) (tbl : List (Char × Char))
+    (st : Statement) (s' : PState)
+    (h : (parseStatement (fuelFor text)).run (PState.init text params tbl) = .ok (st, s')) :
+    parseStatementText text params tbl = .ok st := by
+  unfold parseStatementText
+  simp only [StateT.run'] at h ⊢
+  simp only [StateT.run] at h
+  rw [h]; rfl
+
+/-- End to end: a raw text whose delivered form is a legal spelling of the keywords of a family path
+followed by `body` and any continuation `k'`, on which the path's handler returns `st`. -/
+theorem statement_of_family (text : Str) (params : List (Str × BoundValue)) (tbl : List (Char × Char))
+    (toks : List Token) (h : Handler) (hmem : (toks, h) ∈ familyPaths) (ks : List (Render.Gap × Str))
+    (hks : ks.length = toks.length) (body : List (Render.Gap × Piece)) (k' : Str) (st : Statement)
+    (hfold : foldCR text = render (kwPieces toks ks ++ body) ++ k')
+    (hL : Legal (kwPieces toks ks ++ body) (k' ++ [eofRune]))
+    (hfam : ∀ s : PState, s.Before (render body ++ (k' ++ [eofRune])) → Legal body (k' ++ [eofRune]) →
+      ∃ s', (runHandler (fuelFor text) h).run s = .ok (st, s')) :
+    parseStatementText text params tbl = .ok st := by
+  have hs := PState.init_before text params tbl
+  rw [hfold, List.append_assoc] at hs
+  obtain ⟨s1, h1, b1, hL2⟩ := parseStatement_family (fuelFor text) toks h hmem ks hks body _ _ hL hs
+  obtain ⟨s', h2⟩ := hfam s1 b1 hL2
+  exact parseStatementText_of_run text params tbl st s' (by rw [h1]; exact h2)
+
+/-! ### statements without arguments -/
+
+/-- The handlers that read nothing, with their keywords. -/
+def zeroArgFamily : List (List Token × Handler × Statement) :=
+  [([.SHOW, .CONTINUOUS, .QUERIES], .parseShowContinuousQueriesStatement, .showContinuousQueries),
+   ([.SHOW, .DATABASES], .parseShowDatabasesStatement, .showDatabases),
+   ([.SHOW, .QUERIES], .parseShowQueriesStatement, .showQueries),
+   ([.SHOW, .SHARD, .GROUPS], .parseShowShardGroupsStatement, .showShardGroups),
+   ([.SHOW, .SHARDS], .parseShowShardsStatement, .showShards),
+   ([.SHOW, .SUBSCRIPTIONS], .parseShowSubscriptionsStatement, .showSubscriptions),
+   ([.SHOW, .USERS], .parseShowUsersStatement, .showUsers)]
+
+theorem gen_zeroArgFamily : ∀ p ∈ zeroArgFamily, (p.1, p.2.1) ∈ familyPaths := by decide
+
+/-- The handler returns the statement and reads nothing, in every state. -/
+theorem zeroArg_render_parse (fuel : Nat) (toks : List Token) (h : Handler) (st : Statement)
+    (hh : (toks, h, st) ∈ zeroArgFamily) (s : PState) : (runHandler fuel h).run s = .ok (st, s) := by
+  simp only [zeroArgFamily, List.mem_cons, Prod.mk.injEq, List.not_mem_nil, or_false] at hh
+  rcases hh with ⟨_, rfl, rfl⟩ | ⟨_, rfl, rfl⟩ | ⟨_, rfl, rfl⟩ | ⟨_, rfl, rfl⟩ | ⟨_, rfl, rfl⟩ | ⟨_, rfl, rfl⟩ |
+    ⟨_, rfl, rfl⟩ <;> rfl
+
+/-- **SHOW CONTINUOUS QUERIES / DATABASES / QUERIES / SHARD GROUPS / SHARDS / SUBSCRIPTIONS / USERS,
+from the first character**: every text whose delivered form is the keywords, each in any case and
+after any gap (the first gap may be empty), followed by anything `k'` that does not continue the
+last keyword, parses to the statement. -/
+theorem zeroArg_statement_render_parse (text : Str) (params : List (Str × BoundValue)) (tbl : List (Char × Char))
+    (toks : List Token) (h : Handler) (st : Statement) (hh : (toks, h, st) ∈ zeroArgFamily)
+    (ks : List (Render.Gap × Str)) (hks : ks.length = toks.length) (k' : Str)
+    (hfold : foldCR text = render (kwPieces toks ks) ++ k')
+    (hL : Legal (kwPieces toks ks) (k' ++ [eofRune])) :
+    parseStatementText text params tbl = .ok st := by
+  refine statement_of_family text params tbl toks h (gen_zeroArgFamily _ hh) ks hks [] k' st
+    (by rw [List.append_nil]; exact hfold) (by rw [List.append_nil]; exact hL) ?_
+  intro s _ _
+  exact ⟨s, zeroArg_render_parse _ toks h st hh s⟩
+
+/-! ### one name: DROP DATABASE / DROP MEASUREMENT / DROP USER / SHOW GRANTS FOR -/
+
+def singleNameFamily : List (List Token × Handler × (Str → Statement)) :=
+  [([.DROP, .DATABASE], .parseDropDatabaseStatement, .dropDatabase),
+   ([.DROP, .MEASUREMENT], .parseDropMeasurementStatement, .dropMeasurement),
+   ([.DROP, .USER], .parseDropUserStatement, .dropUser),
+   ([.SHOW, .GRANTS, .FOR], .parseGrantsForUserStatement, .showGrantsForUser)]
+
+theorem gen_singleNameFamily : ∀ p ∈ singleNameFamily, (p.1, p.2.1) ∈ familyPaths := by decide
+
+/-- **`<name>` in free spelling**: after any gap, the name bare (if it needs no quotes) or quoted. -/
+theorem singleName_render_parse (fuel : Nat) (toks : List Token) (h : Handler) (C : Str → Statement)
+    (hh : (toks, h, C) ∈ singleNameFamily) (s : PState) (g : Render.Gap) (sp : NameSpelling) (name k : Str)
+    (hL : Legal [(g, .name sp name)] k) (hs : s.Before (render [(g, .name sp name)] ++ k)) :
+    ∃ s', (runHandler fuel h).run s = .ok (C name, s') ∧ s'.Before k := by
+  obtain ⟨s', hrun, hb⟩ := parseIdent_of (name := name) (step s g (.name sp name) [] k hL hs.around)
+  refine ⟨s', ?_, hb⟩
+  simp only [singleNameFamily, List.mem_cons, Prod.mk.injEq, List.not_mem_nil, or_false] at hh
+  rcases hh with ⟨_, rfl, rfl⟩ | ⟨_, rfl, rfl⟩ | ⟨_, rfl, rfl⟩ | ⟨_, rfl, rfl⟩ <;>
+    (simp only [runHandler]; rw [P.run_bind _ _ s name s' hrun]; rfl)
+
+/-- **DROP DATABASE / DROP MEASUREMENT / DROP USER / SHOW GRANTS FOR `<name>`, from the first
+character.** -/
+theorem singleName_statement_render_parse (text : Str) (params : List (Str × BoundValue)) (tbl : List (Char × Char))
+    (toks : List Token) (h : Handler) (C : Str → Statement) (hh : (toks, h, C) ∈ singleNameFamily)
+    (ks : List (Render.Gap × Str)) (hks : ks.length = toks.length) (g : Render.Gap) (sp : NameSpelling) (name k' : Str)
+    (hfold : foldCR text = render (kwPieces toks ks ++ [(g, .name sp name)]) ++ k')
+    (hL : Legal (kwPieces toks ks ++ [(g, .name sp name)]) (k' ++ [eofRune])) :
+    parseStatementText text params tbl = .ok (C name) := by
+  refine statement_of_family text params tbl toks h (gen_singleNameFamily _ hh) ks hks _ k' _ hfold hL ?_
+  intro s hs hL2
+  obtain ⟨s', h1, _⟩ := singleName_render_parse _ toks h C hh s g sp name _ hL2 hs
+  exact ⟨s', h1⟩
+
+/-! ### `<name> ON <db>`: DROP RETENTION POLICY, DROP CONTINUOUS QUERY -/
+
+/-- `<name> ON <db>` with its five choices: three gaps, the case of `ON`, two quotings. -/
+def nameOnDbPieces (g1 : Render.Gap) (sp1 : NameSpelling) (g2 : Render.Gap) (on : Str) (g3 : Render.Gap) (sp2 : NameSpelling)
+    (name db : Str) : List (Render.Gap × Piece) :=
+  [(g1, .name sp1 name), (g2, .kw .ON on), (g3, .name sp2 db)]
+
+theorem parseNameOnDb_render (s : PState) (g1 : Render.Gap) (sp1 : NameSpelling) (g2 : Render.Gap) (on : Str) (g3 : Render.Gap)
+    (sp2 : NameSpelling) (name db k : Str) (hL : Legal (nameOnDbPieces g1 sp1 g2 on g3 sp2 name db) k)
+    (hs : s.Before (render (nameOnDbPieces g1 sp1 g2 on g3 sp2 name db) ++ k)) :
+    ∃ s', parseNameOnDb.run s = .ok ((name, db), s') ∧ s'.Before k := by
+  obtain ⟨s1, h1, b1⟩ := parseIdent_of (name := name) (step s g1 _ _ k hL hs.around)
+  obtain ⟨s2, h2, b2⟩ := expectTok_of (t := .ON) (L := []) ["ON"] (step s1 g2 _ _ k hL.tail b1.around)
+  obtain ⟨s3, h3, b3⟩ := parseIdent_of (name := db) (step s2 g3 _ _ k hL.tail.tail b2.around)
+  refine ⟨s3, ?_, b3⟩
+  unfold parseNameOnDb
+  rw [P.run_bind _ _ s name s1 h1, P.run_bind _ _ s1 () s2 h2, P.run_bind _ _ s2 db s3 h3]
+  rfl
+
+def nameOnDbFamily : List (List Token × Handler × (Str → Str → Statement)) :=
+  [([.DROP, .RETENTION, .POLICY], .parseDropRetentionPolicyStatement, .dropRetentionPolicy),
+   ([.DROP, .CONTINUOUS, .QUERY], .parseDropContinuousQueryStatement, .dropContinuousQuery)]
+
+theorem gen_nameOnDbFamily : ∀ p ∈ nameOnDbFamily, (p.1, p.2.1) ∈ familyPaths := by decide
+
+/-- **`<name> ON <db>` in free spelling.** -/
+theorem nameOnDb_render_parse (fuel : Nat) (toks : List Token) (h : Handler) (C : Str → Str → Statement)
+    (hh : (toks, h, C) ∈ nameOnDbFamily) (s : PState) (g1 : Render.Gap) (sp1 : NameSpelling) (g2 : Render.Gap) (on : Str)
+    (g3 : Render.Gap) (sp2 : NameSpelling) (name db k : Str)
+    (hL : Legal (nameOnDbPieces g1 sp1 g2 on g3 sp2 name db) k)
+    (hs : s.Before (render (nameOnDbPieces g1 sp1 g2 on g3 sp2 name db) ++ k)) :
+    ∃ s', (runHandler fuel h).run s = .ok (C name db, s') ∧ s'.Before k := by
+  obtain ⟨s', hrun, hb⟩ := parseNameOnDb_render s g1 sp1 g2 on g3 sp2 name db k hL hs
+  refine ⟨s', ?_, hb⟩
+  simp only [nameOnDbFamily, List.mem_cons, Prod.mk.injEq, List.not_mem_nil, or_false] at hh
+  rcases hh with ⟨_, rfl, rfl⟩ | ⟨_, rfl, rfl⟩ <;>
+    (simp only [runHandler]; rw [P.run_bind _ _ s (name, db) s' hrun]; rfl)
+
+/-- **DROP RETENTION POLICY / DROP CONTINUOUS QUERY `<name> ON <db>`, from the first character.** -/
+theorem nameOnDb_statement_render_parse (text : Str) (params : List (Str × BoundValue)) (tbl : List (Char × Char))
+    (toks : List Token) (h : Handler) (C : Str → Str → Statement) (hh : (toks, h, C) ∈ nameOnDbFamily)
+    (ks : List (Render.Gap × Str)) (hks : ks.length = toks.length) (g1 : Render.Gap) (sp1 : NameSpelling) (g2 : Render.Gap)
+    (on : Str) (g3 : Render.Gap) (sp2 : NameSpelling) (name db k' : Str)
+    (hfold : foldCR text = render (kwPieces toks ks ++ nameOnDbPieces g1 sp1 g2 on g3 sp2 name db) ++ k')
+    (hL : Legal (kwPieces toks ks ++ nameOnDbPieces g1 sp1 g2 on g3 sp2 name db) (k' ++ [eofRune])) :
+    parseStatementText text params tbl = .ok (C name db) := by
+  refine statement_of_family text params tbl toks h (gen_nameOnDbFamily _ hh) ks hks _ k' _ hfold hL ?_
+  intro s hs hL2
+  obtain ⟨s', h1, _⟩ := nameOnDb_render_parse _ toks h C hh s g1 sp1 g2 on g3 sp2 name db _ hL2 hs
+  exact ⟨s', h1⟩
+
+/-! ### non-vacuity of the first families -/
+
+/-- `dRoP  /* c */ dataBASE⇥"a b"`: mixed case, two blanks + a block comment + a blank, a tab, a quoted name. -/
+example : parseStatementText "dRoP  /* c */ dataBASE\t\"a b\"".toList [] [] = .ok (.dropDatabase "a b".toList) := by
+  refine singleName_statement_render_parse _ [] [] [.DROP, .DATABASE] .parseDropDatabaseStatement .dropDatabase (by simp [singleNameFamily])
+    [([], "dRoP".toList), ([.ws ' ', .ws ' ', .block " c ".toList, .ws ' '], "dataBASE".toList)] rfl
+    [.ws '\t'] .quoted "a b".toList [] (by decide +kernel) ?_
+  exact legal_of_spaced _ _ _ _ (by decide +kernel) (by decide +kernel) (by decide +kernel)
+    (fun q _ => q.2.endOK_eof)
+
+/-- `show -- all of them⏎ DataBases ;`: a line comment as the gap, trailing text. -/
+example : parseStatementText "show -- all of them\n DataBases ;".toList [] [] = .ok .showDatabases := by
+  refine zeroArg_statement_render_parse _ [] [] [.SHOW, .DATABASES] .parseShowDatabasesStatement .showDatabases (by simp [zeroArgFamily])
+    [([], "show".toList), ([.ws ' ', .line " all of them".toList, .ws ' '], "DataBases".toList)] rfl " ;".toList
+    (by decide +kernel) ?_
+  exact legal_of_spaced _ _ _ _ (by decide +kernel) (by decide +kernel) (by decide +kernel)
+    (fun q _ => q.2.endOK_sepHead ⟨' ', _, rfl, by decide⟩)
+
+/-- `DROP retention POLICY "1h.cpu"/**/on⏎mydb` (CR LF in the raw text): the quoted name needs no gap
+behind it; `mydb` is written bare. -/
+example : parseStatementText "DROP retention POLICY \"1h.cpu\"/**/on\r\nmydb".toList [] [] =
+    .ok (.dropRetentionPolicy "1h.cpu".toList "mydb".toList) := by
+  refine nameOnDb_statement_render_parse _ [] [] [.DROP, .RETENTION, .POLICY] .parseDropRetentionPolicyStatement .dropRetentionPolicy
+    (by simp [nameOnDbFamily])
+    [([], "DROP".toList), ([.ws ' '], "retention".toList), ([.ws ' '], "POLICY".toList)] rfl
+    [.ws ' '] .quoted [.block []] "on".toList [.ws '\n'] .bare "1h.cpu".toList "mydb".toList [] (by decide +kernel) ?_
+  exact legal_of_spaced _ _ _ _ (by decide +kernel) (by decide +kernel) (by decide +kernel)
+    (fun q _ => q.2.endOK_eof)
 
 end InfluxQL.C01
